@@ -2,7 +2,10 @@
 // real code: src/e57_reader.rs {validate_crc, raw_xml, get_u64, extract_xml} on top of the extracted PagedReader
 use vstd::prelude::*;
 verus! {
+//@nopub
+//@include ioerr.rs
 //@include error.rs
+//@include dev.rs
 //@include page_r_body.rs
 
 #[verifier::external_body]
